@@ -100,7 +100,7 @@ func init() {
 		ID: "C07", Level: "exploration",
 		Rule: "two kinds of cases: hostile histories (35% invalid txs, evidence against validators/candidates/unknown addresses, absences, empty vote sets, time jumps, reward window with and without USDT pool) and byte-level inputs (valid txs mutated by 9 mutators and random strings) given to CheckTx and DeliverTx; every ABCI call runs under recover() in a supervised child; one evaluation = one ABCI call; distinct = (call, tx type, response code) and block kinds",
 		Assumptions: []string{"a recovered panic or a dead worker process is a violation; os.Exit on an accepted halt is excluded (governance txs are generated without reaching 2/3 here)"},
-		Quick: 45, Thorough: 1800, MinEval: 5000, MinDistinct: 40,
+		Quick: 45, Thorough: 450, MinEval: 5000, MinDistinct: 40,
 		Run: func(ctx *WorkCtx, idx int) {
 			r := Rng(ctx.Seed, "C07", idx)
 			sc := StdScenario(idx/3, r, 150)
